@@ -98,6 +98,18 @@ def c10_jobs(rng, quick):
         for pct in PCTS if not quick else [0, 33, 100]:
             add("aztec", "Encode", (pct, req), "ab")
             add("aztec", "Encode", (pct, req), bytes(rng.randrange(256) for _ in range(rng.choice([0, 5, 40, 200]))))
+    # payloads that admit one encoding only and cannot need bit stuffing (0xAA / 0xD5): acceptance is then known almost exactly, so every layer-count
+    # boundary of the automatic size search - including the largest symbol - is a sharp accept/reject boundary
+    for L in (range(1, 33) if not quick else [1, 2, 3, 8, 9, 22, 23, 30, 31, 32]):
+        tot = (112 + 16 * L) * L
+        w = 6 if L <= 2 else 8 if L <= 8 else 10 if L <= 22 else 12
+        for pct in ((0, 33) if quick else (0, 23, 33, 100)):
+            cap = int(((tot - tot % w) - 5 * w - 11) / (1 + pct / 100.0) / 8) - 3
+            for n in (cap - 25, cap - 8, cap):
+                if n > 0:
+                    add("aztec", "Encode", (pct, 0), bytes([170, 213][i % 2] for i in range(n)))
+                    if L <= 4 or not quick:
+                        add("aztec", "Encode", (pct, L), bytes([170]) * n)
     for n in (0, 1, 500, 1000, 1500, 1900, 2000, 2500, 3000, 3500, 4000, 8000):
         for pct in (0, 23, 100):
             add("aztec", "Encode", (pct, 0), bytes([170]) * n)
